@@ -42,7 +42,7 @@ for sid in sorted(os.listdir(SD)):
     meta = {
         "id": sid,
         "property": prop,
-        "round": 3 if "-r3-" in sid else (2 if "-r2-" in sid else 1),
+        "round": 4 if "-r4-" in sid else 3 if "-r3-" in sid else (2 if "-r2-" in sid else 1),
         "title": title,
         "files_changed": files,
         "breaks": section(readme, "clause", "breaks", "broken"),
